@@ -798,3 +798,29 @@ seeded('seeded-RGC10-normalise-tolerance-plus-lerp', ['C10', 'C12'], ['C12.unit'
 seeded('seeded-RGC13-se2-fast-path-half-turn', ['C13'], ['C13.match'])
 seeded('seeded-RGC14-attempt-budget-with-boundary-fallback', ['C14', 'C11'], ['C14.so3'])
 seeded('seeded-RGC15-raw-difference-single-correction', ['C15', 'C10'], ['C10.arc'])
+
+# benign rounds 43-46 (RRT-Connect internals, RRT* internals, primitive spaces, Python bindings)
+for _k in (1, 2, 3, 4):
+    benign_patch('ben43-r%d' % _k, ALL)                         # fold-based nearest helper, check_motion(space, &dyn vc) + all(), let-else main loop + GrowingTree enum, successors-based branch_to_root
+for _k in (1, 2, 3, 4, 5):
+    benign_patch('ben44-r%d' % _k, ALL)                         # RRT*: let-else/all/map_or helpers, nearest_node/steer, ParentChoice struct, rewire(&mut self), successors + finish helper + accessors
+for _k in (1, 3, 4):
+    benign_patch('ben45-r%d' % _k, ['C05', 'C06', 'C08', 'C09', 'C10', 'C11', 'C12', 'C13', 'C14', 'C15', 'C07'])   # RealVector ctor/extent/sampling helpers, SO3 quaternion helpers, MotionResolution value type
+for _k in (1, 2, 3, 4, 5):
+    benign_patch('ben46-r%d' % _k, ['C19', 'C20', 'C08'])       # oxmpl-py: generic solve helper, tuple-match setup, shared builder, generic states iterator, variant dispatch macro
+CASES.append({'name': 'ben45r4-resolution-accepts-zero', 'props': ['C06'], 'expect': ['C06.divisor'], 'patch': '/verif/selftest/benign/ben45-r4.diff',
+              'edits': [('oxmpl/src/base/spaces/mod.rs', '            f if f > 0.0 && f <= 1.0 => f,', '            f if f >= 0.0 && f <= 1.0 => f,')]})
+CASES.append({'name': 'ben45r4-resolution-default-zero', 'props': ['C06'], 'expect': ['C06.divisor'], 'patch': '/verif/selftest/benign/ben45-r4.diff',
+              'edits': [('oxmpl/src/base/spaces/mod.rs', '    const DEFAULT_FRACTION: f64 = 0.05;', '    const DEFAULT_FRACTION: f64 = 0.0;')]})
+CASES.append({'name': 'ben43r4-branch-drops-its-leaf', 'props': ['C02'], 'expect': ['C02.nonempty'], 'patch': '/verif/selftest/benign/ben43-r4.diff',
+              'edits': [(RRTC, '            .map(|index| tree[index].state.clone())\n            .collect()', '            .skip(1)\n            .map(|index| tree[index].state.clone())\n            .collect()')]})
+CASES.append({'name': 'ben43r4-goal-half-from-start-tree', 'props': ['C02'], 'expect': ['C02.goal'], 'patch': '/verif/selftest/benign/ben43-r4.diff',
+              'edits': [(RRTC, 'let goal_path = Self::branch_to_root(&self.goal_tree, goal_idx);', 'let goal_path = Self::branch_to_root(&self.start_tree, goal_idx);')]})
+benign_patch('ben45-r5', ['C05', 'C06', 'C08', 'C09', 'C10', 'C11', 'C12', 'C13', 'C14', 'C15', 'C07'])   # RealVector: assert_dimension helper, zip-based interpolate / enforce_bounds, `!(0..n).any(violates_bound)` with a named closure
+CASES.append({'name': 'ben45r5-named-predicate-bounds-swapped', 'props': ['C11'], 'expect': ['C11.same'], 'patch': '/verif/selftest/benign/ben45-r5.diff',
+              'edits': [('oxmpl/src/base/spaces/real_vector_state_space.rs', '            value - BOUNDS_TOLERANCE > upper || value + BOUNDS_TOLERANCE < lower',
+                         '            value - BOUNDS_TOLERANCE > lower || value + BOUNDS_TOLERANCE < upper')]})
+CASES.append({'name': 'ben45r5-named-predicate-all-instead-of-any', 'props': ['C11'], 'expect': ['C11.same'], 'patch': '/verif/selftest/benign/ben45-r5.diff',
+              'edits': [('oxmpl/src/base/spaces/real_vector_state_space.rs', '        !(0..self.dimension).any(violates_bound)', '        !(0..self.dimension).all(violates_bound)')]})
+CASES.append({'name': 'ben45r2-range-test-ends-swapped', 'props': ['C11'], 'expect': ['C11.same'], 'patch': '/verif/selftest/benign/unsupported/ben45-r2.diff',
+              'edits': [('oxmpl/src/base/spaces/so2_state_space.rs', '        (lower..=upper).contains(&value)', '        (upper..=lower).contains(&value)')]})
